@@ -94,7 +94,8 @@ class BuckGophermapHandler(BaseHandler):
                     if entry.gethost() is None and entry.getport() is None:
                         # If we're using links on THIS server, try to fill
                         # it in for gopher+.
-                        # Only look at paths that could also be requested.
+                        # Only look at paths that could also be requested
+                        # (a "URL:..." selector is not a path below the root).
                         probe = BaseHandler(
                             selector,
                             self.searchrequest,
@@ -103,7 +104,11 @@ class BuckGophermapHandler(BaseHandler):
                             None,
                             self.vfs,
                         )
-                        if probe.isrequestsecure() and self.vfs.exists(selector):
+                        if (
+                            selector[0:1] == "/"
+                            and probe.isrequestsecure()
+                            and self.vfs.exists(selector)
+                        ):
                             entry.populatefromvfs(self.vfs, selector)
                     self.entries.append(entry)
                 else:  # Info line
